@@ -82,6 +82,11 @@ def c01(rep, env):
         only(rep, lambda r: SM.check_belt(r, fb, parts=("par",)), pre("par.closed-form"))
         only(rep, lambda r: CM.check_helpers(r, fb), pre("helpers.one-block", "helpers.par-group"))
         MI.check_overrides(rep, fb)
+        MI.check_plumbing(rep, fb)
+        MI.check_exports(rep, fb)
+        # decrypting by rewinding the same object: the counter state must start at block 0 and seek exactly
+        only(rep, lambda r: SM.check_ctr_layout(r, fb), pre("ctr.from-nonce.zero"))
+        only(rep, lambda r: SM.check_ctr_remaining(r, fb), pre("pos."))
     per_config(rep, env, f)
 
 
@@ -90,6 +95,8 @@ def c02(rep, env):
         BM.check_definition(rep, fb, crates={"cbc", "pcbc", "ige"})
         BM.check_par(rep, fb, crates={"cbc", "pcbc", "ige"})
         MI.check_plumbing(rep, fb, crates={"cbc", "pcbc", "ige"})
+        MI.check_overrides(rep, fb)
+        MI.check_exports(rep, fb)
         # the definition must hold for both ways of passing buffers: the in-place summary equals the
         # buffer-to-buffer summary that was compared with the recurrence above
         only(rep, lambda r: BM.check_inplace(r, fb, crates={"cbc", "pcbc", "ige"}), pre("alias.same", "alias.no-old-output"))
@@ -104,6 +111,8 @@ def c03(rep, env):
         BM.check_par(rep, fb, crates={"cfb_mode", "cfb8", "ofb"})
         MI.check_plumbing(rep, fb, crates={"cfb_mode", "cfb8", "ofb"})
         MI.check_enc_only(rep, fb, crates={"cfb_mode", "cfb8", "ofb"})
+        MI.check_overrides(rep, fb)
+        MI.check_exports(rep, fb)
         BC.check_definition(rep, fb)
         BC.check_state(rep, fb)      # "any chunking of the calls" includes resuming from an exported (block, position)
         BC.check_init(rep, fb)
@@ -121,6 +130,8 @@ def c04(rep, env):
         MI.check_enc_only(rep, fb, crates={"ctr"})
         IR.check_clone_bodies(rep, fb, crates={"ctr"})
         SM.check_ctr_aliases(rep, fb)
+        MI.check_overrides(rep, fb)
+        MI.check_exports(rep, fb)
         # "block index i" is also reached by seeking: the position setter/getter of each flavour
         only(rep, lambda r: SM.check_ctr_remaining(r, fb), pre("pos."))
         only(rep, lambda r: SM.check_ctr_core(r, fb), pre("pos."))
@@ -132,6 +143,8 @@ def c05(rep, env):
         CM.check_layout(rep, fb)
         CM.check_helpers(rep, fb)
         CM.check_constructors(rep, fb)
+        MI.check_overrides(rep, fb)
+        MI.check_exports(rep, fb)      # the public names CbcCs1.. must denote the variants analysed under those names
     per_config(rep, env, f)
 
 
@@ -143,6 +156,8 @@ def c06(rep, env):
         only(rep, lambda r: SM.check_belt(r, fb, parts=("def", "par", "rem", "pos")), pre("belt.", "par.", "rem.exact", "pos."))
         MI.check_plumbing(rep, fb, crates={"belt_ctr"})
         MI.check_enc_only(rep, fb, crates={"belt_ctr"})
+        MI.check_overrides(rep, fb)
+        MI.check_exports(rep, fb)
     per_config(rep, env, f)
 
 
@@ -169,6 +184,8 @@ def c08(rep, env):
         only(rep, lambda r: SM.check_belt(r, fb, parts=("def", "par")), pre("belt.ks.", "par.closed-form"))
         MI.check_stream_involution(rep, fb)
         MI.check_aliases(rep, fb)
+        MI.check_overrides(rep, fb)
+        MI.check_plumbing(rep, fb)
         BM.check_dependence(rep, fb, crates={"cfb_mode", "cfb8"})
     per_config(rep, env, f)
 
@@ -186,6 +203,8 @@ def c09(rep, env):
         only(rep, lambda r: BM.check_par(r, fb), pre("par.closed-form"))
         only(rep, lambda r: SM.check_ctr_backend(r, fb), pre("par.closed-form", "ctr.ks.advance"))
         only(rep, lambda r: SM.check_belt(r, fb, parts=("par", "def")), pre("par.closed-form", "belt.ks.advance"))
+        MI.check_overrides(rep, fb)
+        MI.check_plumbing(rep, fb)     # the state must survive between calls (nothing but the kernels writes it)
     per_config(rep, env, f)
 
 
@@ -222,6 +241,8 @@ def c12(rep, env):
         BM.check_inplace(rep, fb)
         CM.check_inplace(rep, fb)
         MI.check_stream_involution(rep, fb)
+        MI.check_overrides(rep, fb)
+        MI.check_plumbing(rep, fb)
         only(rep, lambda r: CM.check_helpers(r, fb), pre("helpers.par-group.inplace"))
     per_config(rep, env, f)
 
@@ -255,6 +276,8 @@ def c14(rep, env):
         SM.check_ctr_aliases(rep, fb)
         MI.check_no_own_keyinit(rep, fb)
         MI.check_overrides(rep, fb)
+        MI.check_exports(rep, fb)
+        MI.check_plumbing(rep, fb)
         # "a core driven block-wise equals the byte-level cipher": the wrapper mixes single-block and
         # parallel calls, so the parallel bodies must agree with the one-block kernels
         only(rep, lambda r: SM.check_ctr_backend(r, fb), pre("par.closed-form", "ctr.ks.block", "ctr.ks.advance"))
@@ -271,6 +294,8 @@ def c15(rep, env):
         only(rep, lambda r: BM.check_par(r, fb), pre("par.closed-form"))
         # and the buffered CFB decryptor has the propagation pattern of CFB iff it is the CFB stream function
         only(rep, lambda r: BC.check_definition(r, fb), lambda o: o["rule"].startswith("buf.") and "Decryptor" in o["instance"])
+        MI.check_overrides(rep, fb)
+        MI.check_plumbing(rep, fb)
         only(rep, lambda r: SM.check_ctr_backend(r, fb), pre("ctr.ks.data-independent", "ctr.ks.block"))
         only(rep, lambda r: SM.check_belt(r, fb, parts=("def",)), pre("belt.ks.data-independent", "belt.ks.block"))
     per_config(rep, env, f)
